@@ -11,6 +11,10 @@
 //	otlp_logs_grpc_http    logtest.RecordFactory records through otlploggrpc /
 //	                       otlploghttp + differential
 //	zipkin                 span batches through zipkin.New(loopback URL)
+//	otlp_concurrent_export one exporter instance (any of the six OTLP exporters), 2..6
+//	                       goroutines exporting their own batches at once (conc_test.go,
+//	                       which also records what the documentation says about
+//	                       concurrent Export calls)
 //
 // Oracle. Every captured OTLP request goes through proto.Marshal/Unmarshal and
 // is then mapped by the decoders of this package (written against the OTLP
